@@ -28,9 +28,9 @@ class ParseStep:
             if n not in self.E:
                 broken('parse.c: enumerator %s vanished' % n)
         lp = cfg.loops(self.f)
-        sw = [i for i in self.f.insns() if i.op == 'switch']
+        sw = [i for i in self.f.insns() if i.op == 'switch' and any(i.block.name in body for body in lp.values())]
         if len(sw) != 1:
-            broken('parse(): expected exactly one switch on the parser state')
+            broken('parse(): expected exactly one switch on the parser state inside the word loop')
         self.switch = sw[0]
         heads = [h for h, body in lp.items() if self.switch.block.name in body]
         if len(heads) != 1:
